@@ -192,7 +192,7 @@ theorem ofText_path_abs {env : Env} {t : Text} {u : URL} (h : URL.ofText env t =
 /-- every URL the parser returns with a valid host and a natural-number port (or none) has the shape of `WF`, given
     that its texts are encodable -/
 theorem parsed_WF {env : Env} (hl : NfcLaws env.nfc) {t : Text} {u : URL} (h : URL.ofText env t = .ok u)
-    (hne : u.host ≠ []) (hhost : HostOK env true u) (hidna : env.idnaDec u.host = some u.host)
+    (hne : u.host ≠ []) (hhost : HostOK env true u) (hidna : isAsciiText u.host = true → env.idnaDec u.host = some u.host)
     (hport : PortNat u) (hs : Scalars env u) : WF env u where
   scheme_ok := by
     rw [(ofText_fields h).scheme]; exact schemeOf_chars t
@@ -209,7 +209,7 @@ theorem parsed_WF {env : Env} (hl : NfcLaws env.nfc) {t : Text} {u : URL} (h : U
   scalars := hs
 
 theorem parsed_WFmin {env : Env} {t : Text} {u : URL} (h : URL.ofText env t = .ok u)
-    (hne : u.host ≠ []) (hhost : HostOK env false u) (hidna : env.idnaDec u.host = some u.host)
+    (hne : u.host ≠ []) (hhost : HostOK env false u) (hidna : isAsciiText u.host = true → env.idnaDec u.host = some u.host)
     (hport : PortNat u)
     (hus : ∀ x ∈ env.nfc u.username, isScalar x = true) (hps : ∀ x ∈ env.nfc u.password, isScalar x = true)
     (h1 : ∀ s ∈ u.pathParts, 37 ∉ s) (h2 : ∀ kv ∈ u.query, 37 ∉ kv.1 ∧ ∀ v, kv.2 = some v → 37 ∉ v)
@@ -254,5 +254,147 @@ theorem parsed_WFnaMin {env : Env} {t : Text} {u : URL} (h : URL.ofText env t = 
   no_pct_parts := h1
   no_pct_query := h2
   no_pct_frag := h3
+
+/-! ### the host of a parsed URL -/
+
+theorem rafter_sub' (c : Nat) (s : Text) : ∀ x ∈ rafter c s, x ∈ s := by
+  intro x hx
+  unfold rafter at hx
+  have := (List.takeWhile_sublist (neq c)).subset (List.mem_reverse.mp hx)
+  exact List.mem_reverse.mp this
+
+theorem before_sub (c : Nat) (s : Text) : (before c s).Sublist s := List.takeWhile_sublist _
+
+theorem rafter_chars (c : Nat) (s : Text) : ∀ x ∈ rafter c s, x ≠ c := by
+  intro x hx
+  unfold rafter at hx
+  have := mem_takeWhile_true (List.mem_reverse.mp hx)
+  simpa [neq] using this
+
+theorem before_chars (c : Nat) (s : Text) : ∀ x ∈ before c s, x ≠ c := by
+  intro x hx
+  have := mem_takeWhile_true hx
+  simpa [neq] using this
+
+/-- what `parse_url` does with the authority -/
+theorem ofText_auth {env : Env} {t : Text} {u : URL} (h : URL.ofText env t = .ok u) :
+    ∃ a : Auth, parseAuthority env ((authorityOf (afterScheme t)).getD []) = .ok a ∧ u.family = a.family ∧
+      u.port = a.port ∧
+      (if a.host = [] then some [] else if isAsciiText a.host then env.idnaDec a.host else some a.host) = some u.host := by
+  unfold URL.ofText at h
+  simp only at h
+  split at h
+  · cases h
+  · rename_i a ha
+    split at h
+    · cases h
+    · rename_i host hhost
+      cases h
+      exact ⟨a, ha, rfl, rfl, hhost⟩
+
+theorem authorityOf_chars (r : Text) : ∀ x ∈ (authorityOf r).getD [], notIn authStop x = true := by
+  intro x hx
+  unfold authorityOf at hx
+  split at hx
+  · simp only [Option.getD_some] at hx
+    exact mem_takeWhile_true hx
+  · simp at hx
+
+/-- the host that `parse_url` cuts out of an authority: when it is not an IPv6 literal and contains no `[`, it consists
+    of host characters and its family is what `inet_pton(AF_INET, …)` says -/
+theorem parseAuthority_name {env : Env} {au : Text} {a : Auth} (h : parseAuthority env au = .ok a)
+    (hau : ∀ x ∈ au, notIn authStop x = true) (hne : a.host ≠ []) (h6 : a.family ≠ .inet6) (h91 : 91 ∉ a.host) :
+    (∀ c ∈ a.host, hostChar c = true) ∧ a.family = (if env.fam4 a.host then .inet else .none) := by
+  unfold parseAuthority at h
+  simp only at h
+  have hsub : ∀ x ∈ rafter 64 au, notIn authStop x = true ∧ x ≠ 64 := fun x hx =>
+    ⟨hau x (rafter_sub' 64 au x hx), rafter_chars 64 au x hx⟩
+  split at h
+  · cases h
+  · rename_i host port hsp
+    split at h
+    · cases h
+    · rename_i fam host' hph
+      cases h
+      simp only at hne h6 h91 ⊢
+      -- parse_host: not the bracket branch (that one yields AF_INET6)
+      have hhost' : host' = host ∧ fam = (if env.fam4 host then .inet else .none) := by
+        unfold parseHost at hph
+        split at hph
+        · cases hph
+          exact absurd rfl hne
+        · split at hph
+          · split at hph
+            · cases hph; exact absurd rfl h6
+            · cases hph
+          · cases hph; exact ⟨rfl, rfl⟩
+      obtain ⟨e1, e2⟩ := hhost'
+      subst e1
+      refine ⟨?_, e2⟩
+      -- split_host_port: which branch produced `host`
+      have hchars : ∀ c ∈ host', notIn authStop c = true ∧ c ≠ 64 ∧ c ≠ 58 := by
+        split at hsp
+        · cases hsp; intro c hc; simp at hc
+        · unfold splitHostPort at hsp
+          split at hsp
+          · rename_i hnc
+            cases hsp
+            intro c hc
+            refine ⟨(hsub c hc).1, (hsub c hc).2, ?_⟩
+            intro e; subst e
+            simp at hnc; exact hnc hc
+          · split at hsp
+            · split at hsp
+              · cases hsp
+                exfalso
+                rename_i hbr _ _
+                simp only [Bool.and_eq_true] at hbr
+                apply h91
+                have : (before 58 (rafter 64 au)).head? = some 91 := by simpa using hbr.1
+                cases hb : before 58 (rafter 64 au) with
+                | nil => rw [hb] at this; simp at this
+                | cons x xs => rw [hb] at this; simp at this; subst this; simp
+              · cases hsp
+            · split at hsp
+              · cases hsp
+                intro c hc
+                have hm : c ∈ rafter 64 au := (before_sub 58 _).subset hc
+                exact ⟨(hsub c hm).1, (hsub c hm).2, before_chars 58 _ c hc⟩
+              · cases hsp
+      intro c hc
+      have := hchars c hc
+      have h91c : c ≠ 91 := fun e => h91 (e ▸ hc)
+      simp [hostChar, this.1, this.2.1, this.2.2, h91c]
+
+/-- the law of the idna codec the next lemma needs: when `ascii_bytes.decode('idna')` yields an ASCII name, it is
+    the name that went in (a name without ACE label is left alone; an ACE label decodes to something non-ASCII) -/
+def IdnaAsciiId (env : Env) : Prop :=
+  ∀ s h, env.idnaDec s = some h → isAsciiText h = true → h = s
+
+/-- the ASCII host of a parsed URL that is not an IPv6 literal and contains no `[`: a name made of host characters,
+    with the family `inet_pton(AF_INET, …)` gives it, left alone by the idna decoder -/
+theorem parsed_host_name {env : Env} (hid : IdnaAsciiId env) {t : Text} {u : URL} (h : URL.ofText env t = .ok u)
+    (hne : u.host ≠ []) (hu : isAsciiText u.host = true) (h6 : u.family ≠ .inet6) (h91 : 91 ∉ u.host) :
+    (∀ c ∈ u.host, hostChar c = true) ∧ u.family = (if env.fam4 u.host then .inet else .none) ∧
+    env.idnaDec u.host = some u.host := by
+  obtain ⟨a, ha, hfam, _, hhost⟩ := ofText_auth h
+  have hau := authorityOf_chars (afterScheme t)
+  have heq : a.host = u.host ∧ env.idnaDec u.host = some u.host := by
+    by_cases hnil : a.host = []
+    · rw [if_pos hnil] at hhost
+      simp only [Option.some.injEq] at hhost
+      exact absurd hhost.symm hne
+    · rw [if_neg hnil] at hhost
+      by_cases hasc : isAsciiText a.host = true
+      · rw [if_pos hasc] at hhost
+        have := hid _ _ hhost hu
+        exact ⟨this.symm, by rw [this] at hhost ⊢; exact hhost⟩
+      · rw [if_neg hasc] at hhost
+        simp only [Option.some.injEq] at hhost
+        rw [← hhost] at hu
+        exact absurd hu hasc
+  have hn := parseAuthority_name ha hau (by rw [heq.1]; exact hne) (by rw [← hfam]; exact h6) (by rw [heq.1]; exact h91)
+  rw [heq.1] at hn
+  exact ⟨hn.1, by rw [hfam]; exact hn.2, heq.2⟩
 
 end C06
